@@ -33,7 +33,7 @@ func (e *Exec) native(callee *ssa.Function, name string, args []Term, reach stri
 		return strT(ite(app("str.suffixof", A(1), A(0)), app("str.substr", A(0), "0", app("-", app("str.len", A(0)), app("str.len", A(1)))), A(0))), h, true
 	case "strings.LastIndex":
 		u.declareUF("str_lastindex", "(declare-fun str_lastindex (String String) Int)")
-		u.addAxiom(`(assert (forall ((s String) (t String)) (! (and (>= (str_lastindex s t) (- 1)) (<= (+ (str_lastindex s t) (str.len t)) (str.len s)) (=> (>= (str_lastindex s t) 0) (= (str.substr s (str_lastindex s t) (str.len t)) t)) (= (>= (str_lastindex s t) 0) (str.contains s t))) :pattern ((str_lastindex s t)))))`)
+		u.addAxiom(`(assert (forall ((s String) (t String)) (! (and (>= (str_lastindex s t) (- 1)) (=> (>= (str_lastindex s t) 0) (<= (+ (str_lastindex s t) (str.len t)) (str.len s))) (=> (>= (str_lastindex s t) 0) (= (str.substr s (str_lastindex s t) (str.len t)) t)) (= (>= (str_lastindex s t) 0) (str.contains s t))) :pattern ((str_lastindex s t)))))`)
 		return intT(app("str_lastindex", A(0), A(1))), h, true
 	case "unicode/utf8.RuneCountInString":
 		u.declareUF("rune_count", "(declare-fun rune_count (String) Int)")
